@@ -32,6 +32,26 @@ func runC01(c *core.Ctx) {
 	c.RunHistories(n/4+1, Registry["C01"].Mons, func(w *core.World) {
 		k := NewWalker(w, gen.NameOpts{Space: true, MaxDepth: 2, N: 4}, nil)
 		k.Init()
+		if idTwins(); twinBlobs && w.Hist%8 == 1 {
+			// two different contents whose ids share their first 32 bits, stored by ONE command, in both orders
+			w.Write("tw/a.txt", twinBlobA)
+			w.Write("tw/b.txt", twinBlobB)
+			w.Write("tw/c.txt", []byte("third\n"))
+			if w.Hist%16 == 1 {
+				w.Goit("add", "tw/b.txt", "tw/c.txt", "tw/a.txt")
+			} else {
+				w.Goit("add", "tw")
+			}
+			c.Oracle("C01.cli")
+			for _, body := range [][]byte{twinBlobA, twinBlobB} {
+				id := gitfmt.BlobID(body)
+				st := w.Goit("cat-file", "-p", id)
+				if st.Exit != 0 || !bytes.Equal(st.Res.Stdout, append(append([]byte{}, body...), '\n')) {
+					w.Fail("C01.cli", "cat-file-bytes", "blob|id-prefix-twins", "two contents whose ids share 8 hex digits (%s, %s) were added by one command; cat-file -p %s exits %d with %d bytes", short(gitfmt.BlobID(twinBlobA)), short(gitfmt.BlobID(twinBlobB)), id, st.Exit, len(st.Res.Stdout))
+				}
+			}
+			c.Class("cli|blob|id-prefix-twins")
+		}
 		var names []string
 		var ids []string
 		defer func() {
